@@ -304,7 +304,11 @@ PickEx == /\ Mode = "exlit" /\ pick.k = "none"
                 \E pn \in (IF ETypes[i] \in {TRef("L"), TNull(TRef("L")), TList(TRef("L"), 1, Unset)} THEN {"Probe", "L"} ELSE {"Probe"}) :
                    pick' = [k |-> "exlit", ti |-> i, x |-> x, pn |-> pn]
 PickAttr == /\ Mode = "attr" /\ pick.k = "none"
-            /\ \E i \in DOMAIN ADecls, l \in AVals : pick' = [k |-> "attr", di |-> i, l |-> l]
+            \* inh: the attribute is declared by a struct of another namespace that stone_cfg.Route extends (a route carries the
+            \* inherited attributes of the schema like its own)
+            /\ \E i \in DOMAIN ADecls, l \in AVals :
+                  \E inh \in (IF ADecls[i].t.k = "routeunion" THEN {FALSE} ELSE BOOLEAN) :
+                     pick' = [k |-> "attr", di |-> i, l |-> l, inh |-> inh]
 PickRef == /\ Mode = "docref" /\ pick.k = "none"
            /\ \E s \in Sites, tg \in Tags, p \in Payloads : pick' = [k |-> "docref", site |-> s, tag |-> tg, p |-> p]
 PickAnn == /\ Mode = "annot" /\ pick.k = "none"
@@ -361,7 +365,8 @@ Vector ==
             pn |-> pick.pn,
             verdict |-> ExFits(XSchema(ETypes[pick.ti]), XExamples(pick.x), ETypes[pick.ti], pick.x)]
       [] pick.k = "attr" ->
-           [mode |-> "attr", schema |-> ASchema, decl |-> ADecls[pick.di], l |-> pick.l, verdict |-> AttrFits(ASchema, ADecls[pick.di], pick.l)]
+           [mode |-> "attr", schema |-> ASchema, decl |-> ADecls[pick.di], l |-> pick.l, inh |-> pick.inh,
+            verdict |-> AttrFits(ASchema, ADecls[pick.di], pick.l)]
       [] pick.k = "docref" ->
            [mode |-> "docref", site |-> pick.site, tag |-> pick.tag, p |-> pick.p, verdict |-> RefFits(pick.site, pick.tag, pick.p)]
       [] pick.k = "anndef" -> [mode |-> "anndef", r |-> pick.r, a |-> pick.a, used |-> pick.used, verdict |-> AnnDefFits(pick.r, pick.a)]
